@@ -394,3 +394,28 @@ def run(ck):
                   "%s re-programs the kernel timer: if that stops a disarmed timer it never fires, and handleTimer — the only place that closes "
                   "a disarmed timerfd — is never reached for it" % prog.owner(fn_).base.rsplit("::", 1)[1])
     ck.require(nts >= 1, "timerfd_settime not found in transport.cc")
+
+    # ---------------- R13: a fired response time-out gives its timerfd back ----------------
+    ck.rule("C08-R13", "C must-pass-through",
+            "the continuation that Http::Timeout::arm attaches to its timer closes the timerfd on every non-throwing path, whatever has "
+            "become of the peer in the meantime (a time-out that fires for a connection that is already gone must not keep its descriptor)", 1)
+    n13 = 0
+    closes_tfd = lib.Summaries(prog).lift_must(
+        lambda e: libc(e, "close") and any(strip_tmpl(a.get("f") or "") == "Pistache::Http::Timeout::timerFd" for a in e.get("args", [])), "close-timerfd")
+    for fa in prog.find("Pistache::Http::Timeout::arm", 1):
+        for lf in prog.lambdas_in(fa):
+            if not (lf.params and (lf.params[0].get("type") or "").replace("const ", "").strip() in ("uint64_t", "unsigned long", "std::uint64_t")):
+                continue
+            n13 += 1
+            lff = prog.flat(lf) if hasattr(prog, "flat") else lf
+            loose = [x for x in cfg.exits_without(lf, closes_tfd) if x.kind != "throw"]
+            ck.ob("C08-R13", "Timeout::arm/fired-timer-closed", not loose, lf.loc, lf,
+                  "close(timerFd) on every path of the continuation" if not loose else
+                  "the continuation can finish without close(timerFd) (e.g. when the peer has expired): one descriptor stays open per such time-out")
+    ck.require(n13 >= 1, "fulfilment continuation of Timeout::arm not found")
+
+    # ---------------- facts shared with C13 ----------------
+    ck.borrow("C13", ["C13-R3"], "C08-R12",
+              "every accepted connection is registered with its worker: the peers queue is popped until it is empty (its eventfd is "
+              "drained before each pop, so a consumer that stops earlier leaves accepted connections behind, unserved and never released)",
+              key_pred=lambda k: "peersQueue" in k or "handlePeerQueue" in k, min_instances=1)
